@@ -6,7 +6,7 @@ import vlib
 
 PROP = "C05"
 SCALE = 2 ** 100
-VECTOR_OPS = ("grad", "gps", "sens", "sensdiv", "ssens", "ssensdiv", "hess", "ahess", "pen", "penh", "penah",
+VECTOR_OPS = ("grad", "gps", "sens", "sensdiv", "ssens", "ssensdiv", "hsub", "htot", "hess", "ahess", "pen", "penh", "penah",
               "pgrad", "pgradfull", "phess", "pahess", "phessfull", "pahessfull")
 VALUE_OPS = ("val", "pval", "pvalfull")
 NEAR = [0]
